@@ -102,6 +102,21 @@ def r_F17():
     return "R17('abc')" not in pp.pformat(R17('abc'))
 
 
+def r_F18():
+    import dataclasses
+    import prettyprinter as pp
+    pp.install_extras(['dataclasses'], warn_on_error=False)
+
+    @dataclasses.dataclass
+    class D18:
+        ctx: int
+        fn: int = 0
+    with warnings.catch_warnings(record=True) as w:
+        warnings.simplefilter('always')
+        pp.pformat(D18(1, 2))
+    return any('raised an exception' in str(x.message) for x in w)
+
+
 def r_F7():
     import enum
     import prettyprinter as pp
